@@ -4,6 +4,7 @@ import collections
 from vlib.common import *
 from vlib import regen
 from checks import c04sql
+from checks import c04filter as cf
 
 META = {
     "text": "PARTIAL.  Stage 1 (proved + tied): Lean theorems about Store.replay, the independent fold of a bucket's log entries the property "
@@ -280,6 +281,183 @@ def check_read_sql(ctx, inputs, impl, ledger_funcs):
     return st, hows, methods
 
 
+# ---------------------------------------------------------------- captured read SQL: the WHERE clause built for a filter MEANS the filter
+
+FILTER_EP = {"GetAccountsWithVolumes": "accounts", "CountAccounts": "accounts", "GetTransactions": "transactions",
+             "CountTransactions": "transactions", "GetAggregatedBalances": "balances", "GetLogs": "logs"}
+
+
+def canon_filter(f):
+    return json.dumps(json.loads(f), separators=(",", ":"), ensure_ascii=False)
+
+
+def check_filter_structure(ctx, inputs, impl, have_driver):
+    """checks/c04filter.py on every captured filter case: attachment to the statement's own conjuncts, composition of
+    $not / $and / $or (truth tables over the atoms of the captured SQL), and the Lean model's reading (driver area
+    `filtersem`) against the Python oracle's on the same text."""
+    st = collections.Counter()
+    rates = collections.Counter()
+    groups = {}
+    for inp in inputs:
+        m = inp["method"]
+        if m not in FILTER_EP:
+            continue
+        out = impl.get(inp["id"])
+        if out is None or "panic" in out or out.get("err"):
+            continue
+        stmts = [q for q in out["sql"] if not q.startswith("PREPARE ")]
+        if len(stmts) != 1:
+            continue
+        key = (m, inp["ledger"], canon(inp.get("pit")), bool(inp.get("vol")), bool(inp.get("eff")))
+        f = inp.get("filter") or ""
+        groups.setdefault(key, {})[canon_filter(f) if f else ""] = (inp, stmts[0])
+
+    def strip_id(i):
+        return {k: v for k, v in i.items() if k not in ("corpus",)}
+
+    skel = {}        # (key, canonical filter) -> (filter conjunct tree, its text, where text)
+    rows = []        # for the Lean driver
+    for key, cases in sorted(groups.items(), key=lambda kv: canon(kv[0])):
+        base = cases.get("")
+        base_cs = None
+        if base is not None:
+            try:
+                base_cs = cf.ledger_where(base[1], key[1])[2]
+            except cf.SkeletonError as e:
+                ctx.l2_broken.append({"stream": "readsql-skeleton", "id": base[0]["id"], "input": base[0], "impl": base[1], "detail": str(e)})
+        for cfil, (inp, sql) in cases.items():
+            if cfil == "":
+                continue
+            st["filter-cases"] += 1
+            for c in cf.shape_of(cfil):
+                rates[c] += 1
+            try:
+                toks, wtext, cs = cf.ledger_where(sql, key[1])
+                texts = cf.conjunct_texts(toks, wtext)
+            except cf.SkeletonError as e:
+                ctx.l2_broken.append({"stream": "readsql-skeleton", "id": inp["id"], "input": inp, "impl": sql, "detail": str(e)})
+                continue
+            ok = len(cs) >= 2 and any(cf.is_ledger_predicate(c, key[1]) for c in cs[:-1]) and texts is not None and len(texts) == len(cs)
+            if ok and base_cs is not None:
+                ok = cs[:-1] == base_cs
+            st["attachment-checked"] += 1
+            if not ok:
+                ctx.violation({"property": "C04", "class": "filter-attachment", "method": key[0]},
+                              "%s: the WHERE clause for filter %s is not `<conjuncts of the unfiltered statement> AND (<one filter conjunct>)`: %s" % (
+                                  key[0], cfil, cf.show(("and", cs) if len(cs) > 1 else cs[0])),
+                              {"area": "readsql", "inputs": [strip_id(inp)] + ([strip_id(base[0])] if base else []),
+                               "observed": {"filter": cfil, "sql": sql, "where": wtext,
+                                            "unfiltered_conjuncts": [cf.show(c) for c in base_cs or []]}})
+                continue
+            skel[(key, cfil)] = (cs[-1], texts[-1], wtext)
+            rows.append({"id": inp["id"], "ep": FILTER_EP[key[0]], "pit": inp.get("pit") is not None, "ledger": key[1],
+                         "filter": cfil, "frag": texts[-1], "where": wtext})
+
+    # ---- composition
+    conn_stats = collections.Counter()
+    for (key, cfil), (tree, text, wtext) in sorted(skel.items(), key=lambda kv: canon([kv[0][0], kv[0][1]])):
+        conn, subs = cf.sub_filters(cfil)
+        if conn is None:
+            st["leaf-cases"] += 1
+            continue
+        cases = groups[key]
+        subs = [canon_filter(x) for x in subs]
+        missing = [x for x in subs if (key, x) not in skel]
+        if missing:
+            st["composite-without-captured-parts"] += 1
+            if not ctx.replay_file and cases[cfil][0].get("lattice") == "structure":
+                ctx.l2_broken.append({"stream": "readsql-structure-closure", "id": cases[cfil][0]["id"], "input": cases[cfil][0],
+                                      "detail": "sub-filters not captured / not analysable: %s" % missing[:2]})
+            continue
+        parts = [skel[(key, x)][0] for x in subs]
+        want = ("not", parts[0]) if conn == "not" else ("tt" if not parts else (conn, parts))
+        conn_stats[conn] += 1
+        st["compositions-checked"] += 1
+        try:
+            a = cf.first_difference(tree, want)
+        except cf.SkeletonError as e:
+            ctx.l2_broken.append({"stream": "readsql-skeleton", "id": cases[cfil][0]["id"], "input": cases[cfil][0], "detail": str(e)})
+            continue
+        if a is not None:
+            inp, sql = cases[cfil]
+            sub_cases = [cases[x] for x in dict.fromkeys(subs)]
+            ctx.violation({"property": "C04", "class": "filter-structure", "connective": conn, "method": key[0]},
+                          "%s, filter %s: the SQL sent reads %s, but its part%s read%s %s — with %s the filter asked for selects the row = %s, the SQL selects it = %s" % (
+                              key[0], cfil, cf.show(tree), "" if len(parts) == 1 else "s", "s" if len(parts) == 1 else "",
+                              "; ".join(cf.show(p) for p in parts), ", ".join("[%s]=%s" % (cf.pretty_atom(k), str(v).lower()) for k, v in a.items()),
+                              str(cf.ev(want, a)).lower(), str(cf.ev(tree, a)).lower()),
+                          {"area": "readsql",
+                           "inputs": [strip_id(inp)] + [strip_id(c[0]) for c in sub_cases] + ([strip_id(cases[""][0])] if "" in cases else []),
+                           "observed": {"filter": cfil, "connective": conn, "sql": sql, "filter_part_of_sql": text,
+                                        "skeleton_of_sql": cf.show(tree),
+                                        "sub_filters": [{"filter": x, "sql": c[1], "filter_part_of_sql": skel[(key, x)][1],
+                                                         "skeleton": cf.show(skel[(key, x)][0])} for x, c in zip(dict.fromkeys(subs), sub_cases)],
+                                        "expected_skeleton": cf.show(want), "assignment_that_differs": {cf.pretty_atom(k): v for k, v in a.items()},
+                                        "filter_selects": cf.ev(want, a), "sql_selects": cf.ev(tree, a)}})
+
+    # ---- the Lean model's reading of the same text (driver area `filtersem`)
+    tie = collections.Counter()
+    if have_driver and rows:
+        inf, outf = ctx.path("filtersem.in.jsonl"), ctx.path("filtersem.model.jsonl")
+        write_jsonl(inf, rows)
+        p = run_driver("filtersem", inf, outf)
+        if p.returncode != 0:
+            ctx.l2_broken.append({"stream": "filtersem-driver", "detail": (p.stdout + p.stderr)[-2000:]})
+        else:
+            model = {r["id"]: r["out"] for r in read_jsonl(outf)}
+            bad = collections.Counter()
+
+            def broken(stream, row, **kw):
+                bad[stream] += 1
+                if bad[stream] <= 3:
+                    ctx.l2_broken.append(dict({"stream": "filtersem:" + stream, "id": row["id"], "input": row}, **kw))
+            for row in rows:
+                mo = model.get(row["id"])
+                tie["cases"] += 1
+                if mo is None or "driver_error" in mo:
+                    broken("driver", row, model=mo)
+                    continue
+                py_frag = cf.flat(cf.skeleton_sql(row["frag"]))
+                py_where = cf.flat(cf.skeleton_sql(row["where"]))
+                # 1. Lean reading == Python reading, on the REAL text (fragment and whole WHERE clause)
+                if canon(mo.get("sql_tree")) != canon(py_frag):
+                    broken("reading-of-real-fragment(lean-vs-python)", row, impl=py_frag, model=mo.get("sql_tree"))
+                if canon(mo.get("where_tree")) != canon(py_where):
+                    broken("reading-of-real-where(lean-vs-python)", row, impl=py_where, model=mo.get("where_tree"))
+                if "rejected" in mo:
+                    broken("model-rejects-what-the-store-rendered", row, model=mo)
+                    continue
+                # 2. the model renders the text the real store sent
+                if mo["frag"] != row["frag"]:
+                    broken("fragment(model-vs-real-sql)", row, impl=row["frag"], model=mo["frag"])
+                # 3. within the model: pieces scanned one by one == the text scanned as a whole; reading == meaning
+                if not mo["pieces_scan_as_text"]:
+                    broken("pieces-scan-as-text", row, model=mo)
+                if not mo["reading_is_meaning"] or mo["model_tree"] is None:
+                    broken("reading-is-meaning(model)", row, model=mo)
+                # 4. the intended meaning (Lean skel) == the Python reading of the real text, as truth tables
+                try:
+                    d = cf.first_difference(cf.tree_of_json(mo["sem_tree"]), cf.tree_of_json(py_frag))
+                except cf.SkeletonError as e:
+                    d = {"error": str(e)}
+                if d is not None:
+                    broken("meaning(lean)-vs-reading-of-real-sql(python)", row, impl=py_frag, model=mo["sem_tree"], detail=d)
+            for k in ("driver", "reading-of-real-fragment(lean-vs-python)", "reading-of-real-where(lean-vs-python)",
+                      "model-rejects-what-the-store-rendered", "fragment(model-vs-real-sql)", "pieces-scan-as-text",
+                      "reading-is-meaning(model)", "meaning(lean)-vs-reading-of-real-sql(python)"):
+                ctx.cov.setdefault("disagreements", {})["filtersem:" + k] = bad[k]
+                ctx.cov.setdefault("compared", {})["filtersem:" + k] = tie["cases"]
+    n = max(1, st["filter-cases"])
+    return {
+        "filter_cases": st["filter-cases"], "attachment_checked": st["attachment-checked"], "leaf_cases": st["leaf-cases"],
+        "compositions_checked": st["compositions-checked"], "compositions_by_connective": dict(sorted(conn_stats.items())),
+        "composites_without_captured_parts": st["composite-without-captured-parts"],
+        "lean_tie_cases": tie["cases"],
+        "shape_rates (share of filter cases; a case can be in several classes)": {k: round(v / n, 3) for k, v in sorted(rates.items())},
+        "shape_counts": dict(sorted(rates.items())),
+    }
+
+
 def check_schema_functions(ctx, ledger_funcs, fns):
     st = collections.Counter()
     detail = {}
@@ -554,10 +732,12 @@ def run(ctx):
         inputs, impl, _ = r
         st, hows, methods = check_read_sql(ctx, inputs, impl, ledger_funcs)
         rs_eval = st["statements"]
+        fstruct = check_filter_structure(ctx, inputs, impl, have_driver)
         ctx.cov["readsql"] = {
             "cases": len(inputs), "statements_analysed": st["statements"], "table_references": st["table-references"],
             "ledger_function_calls": st["ledger-function-calls"], "copy_rows_checked": st["copy-rows"],
             "statements_by_method": dict(sorted(methods.items())), "restriction_kinds": dict(sorted(hows.items())),
+            "filter_structure": fstruct,
             "lattice": "method x PIT(absent, zero instant, a date) x expandVolumes x expandEffectiveVolumes x filters "
                        "(accounts: address exact/segments, metadata[k], balance[asset], balance, and/or/not; transactions: reference, timestamp, "
                        "account, source, destination (exact/segments), metadata[k], or/and/not; aggregated balances: address, metadata[k]; logs: date)",
